@@ -8,7 +8,7 @@ import checklib
 
 def decode(p):
     f = p.split(" ")
-    kind = {"R": "rules of one event (flag, prio:fails:addsChild …)", "B": "RootMonitor calls (N=new child, A=activate, S=skip, F=finish)",
+    kind = {"R": "rules of one event (flag, prio:fails:addsChild …)", "S": "the same as ECAL sinks (interpreter default: flag on)", "B": "RootMonitor calls (N=new child, A=activate, S=skip, F=finish)",
             "K": "cascade script (workers, roots of parent:prio:triggers:fails)"}.get(f[0], "?")
     return {"kind": kind, "payload": p}
 
@@ -49,7 +49,8 @@ SPEC = dict(
     lean_modules=["Ecal.Props.C10"],
     shards=12,
     rule=("R: one event, rules with priorities 0..5 in shuffled declaration order, failing rule at every rank / none / two, both flag "
-          "settings, plus rule sets with equal and negative priorities; B: every sequence of exactly 6 (quick) / 7 (thorough) RootMonitor "
+          "settings, plus rule sets with equal and negative priorities; S: the same rule sets declared as ECAL sinks (priority attribute, raise, addEvent) "
+          "run by the interpreter with its default setting; B: every sequence of exactly 6 (quick) / 7 (thorough) RootMonitor "
           "steps over 3 priorities (activate, skip, finish per priority, root monitor) plus random sequences of up to 90 calls over up to 12 "
           "priorities incl. negative and rejected calls; K: random cascade scripts (1..3 root monitors, up to 12 events each, priorities "
           "-3..5, skipped and failing events) on 1 worker (exact start order + HighestPriority sampled in every action) and on 2..8 workers "
